@@ -181,12 +181,12 @@ fn create_if_meta_info_for_line(
         package: package.clone(),
     };
     let mut middle_names = else_if_command.aliases();
-    start_names.push(else_if_command.name());
+    middle_names.push(else_if_command.name());
     let else_command = ElseCommand {
         package: package.clone(),
     };
     middle_names.append(&mut else_command.aliases());
-    start_names.push(else_command.name());
+    middle_names.push(else_command.name());
 
     // end names
     let end_if_command = EndIfCommand {
